@@ -103,7 +103,7 @@ func init() {
 			return nil
 		},
 		"verifSharedEnd": func(fr *frame, a []value) value { fr.i.shared = nil; return nil },
-		"verifEnd": func(fr *frame, a []value) value { panic(pathEnd{"end"}) },
+		"verifEnd":       func(fr *frame, a []value) value { panic(pathEnd{"end"}) },
 	} {
 		harnessAPI[k] = v
 	}
